@@ -237,10 +237,17 @@ class Gen:
             '[2,"i","Heartbeat",{"a":1e999}]', '[2,"i","Heartbeat",{"a":-1E+9999}]', '[2,"i","Heartbeat",{"a":NaN}]',
             '[2,"i","Heartbeat",{"a":Infinity,"b":-Infinity}]', '[2,"\\ud800","Heartbeat",{}]', '[2,"i","Heartbeat",{"a":"\\udfff"}]',
             '[2,"i","Heartbeat",{"a":1,"a":2}]', '[2, "i" , "Heartbeat" ,\n{ } ]', '[2,"i","Heartbeat",{}]\n',
+            # a message type that is no integer at all: non-finite, huge, fractional
+            '[1e999,"i","Heartbeat",{}]', '[-1e999,"i","Heartbeat",{}]', '[Infinity,"i","Heartbeat",{}]', '[NaN,"i","Heartbeat",{}]',
+            '[-Infinity,"i",{}]', '[1e999]', '[2e0,"i","Heartbeat",{}]', '[2.5,"i","Heartbeat",{}]', '[1e30,"i","Heartbeat",{}]',
+            '[' + '2' * 400 + ',"i","Heartbeat",{}]', '[-2,"i","Heartbeat",{}]', '[2,"i","Heartbeat",{"a":"' + "x" * 700,
         ]
         braws = [b'[2,"i","Heartbeat",{}]', b'\xff\xfe[2]', b'\xef\xbb\xbf[2,"i","Heartbeat",{}]', b'[2,"i","Heartbeat",{"a":"\xc3"}]',
                  b'\x00', b'', '[2,"ü","Heartbeat",{}]'.encode("utf-16"), '[2,"ü","Heartbeat",{}]'.encode("utf-32-le"),
-                 bytearray(b'[3,"i",{}]')]
+                 bytearray(b'[3,"i",{}]'),
+                 # long frames that do not decode (whatever is quoted of them in an error must cope with bytes)
+                 b'\xff' * 600, b'[' * 1000, b'[2,"i","Heartbeat",{' + b'"k":1,' * 200, b'\x00' * 513,
+                 bytearray(b'[2,"i","Heartbeat",{"a":"' + b'\xc3' * 600 + b'"}]'), '[2,"ü","Heartbeat",{}]'.encode("utf-16") * 40]
         for version in ("1.6", "2.0.1"):
             hb = self.route("Heartbeat", ("ret", {"current_time": "2024-01-01T00:00:00Z"}), after=("ret",))
             for raw in raws + braws:
@@ -292,7 +299,9 @@ class Gen:
                         if b[0] == "viol:type-intfloat":
                             kw = "type-intfloat"
                         elif kw == "type":
-                            kw = "type-" + str(b[0])
+                            # one kind per (label, JSON type the schema wants, JSON type that was put there instead)
+                            full0 = next((i[1] for i in pool if i[0] == "valid-all"), None)
+                            kw = "type-%s-%s-%s" % (b[0], _jtype(_at(full0, b[2][0][0])), _jtype(_at(b[1], b[2][0][0])))
                         if side == "res" and "null" in json.dumps(b[1]):
                             continue
                         decimal_pos = kw == "multipleOf" and version == "1.6"
@@ -342,6 +351,20 @@ class Gen:
         cases += self.stratum_unhandled(full)
         cases += self.stratum_frames()
         return cases
+
+
+def _at(inst, path):
+    cur = inst
+    for part in [p for p in path.split("/") if p != ""]:
+        try:
+            cur = cur[int(part)] if isinstance(cur, list) else cur[part]
+        except (KeyError, IndexError, ValueError, TypeError):
+            return KeyError
+    return cur
+
+
+def _jtype(v):
+    return "absent" if v is KeyError else type(v).__name__
 
 
 # ------------------------------------------------------------------------------------------ evaluation
